@@ -61,6 +61,15 @@ def build_data(seed):
     apr = [i for i, ts in enumerate(mm.index) if ts.month == 4][5:9]
     mm.loc[mm.index[apr], "temperature"] = np.nan
     add("Daily", "missmonth", F.daily_baseline(mm), ("Baseline", "Daily"), "US/Pacific")
+    # combinations of defects and the too-long baseline
+    sg = d.iloc[:230].copy()
+    sg.loc[sg.index[rng.sample(range(230), 40)], "observed"] = np.nan
+    add("Daily", "short_gaps", F.daily_baseline(sg), ("Baseline", "Daily"), "US/Pacific")
+    ng = n.copy()
+    ng.loc[ng.index[rng.sample(range(365), 60)], "temperature"] = np.nan
+    add("Daily", "neggas_gaps", F.daily_baseline(ng, electric=False), ("Baseline", "Daily"), "US/Pacific")
+    dl = F.daily_frame(rng, tz="US/Pacific", start="2021-06-01", ndays=420)
+    add("Daily", "long", F.daily_baseline(dl), ("Baseline", "Daily"), "US/Pacific")
     e = F.daily_frame(rng, tz="US/Eastern")
     add("Daily", "clean_tzB", F.daily_baseline(e), ("Baseline", "Daily"), "US/Eastern")
     r = F.daily_frame(rng, tz="US/Pacific", start="2023-01-01", ndays=120)
@@ -80,6 +89,9 @@ def build_data(seed):
     aprh = [i for i, ts in enumerate(tmm.index) if ts.month == 4 and 6 <= ts.day <= 9]
     tmm.iloc[aprh] = np.nan
     add("Billing", "missmonth", F.billing_baseline(m, tmm), ("Baseline", "Billing"), "US/Pacific")
+    tsg = t.copy()
+    tsg.iloc[[i for i, ts in enumerate(tsg.index) if ts.month in (2, 3)]] = np.nan
+    add("Billing", "short_tgaps", F.billing_baseline(m.iloc[:9], tsg), ("Baseline", "Billing"), "US/Pacific")
     m2, t2 = F.billing_series(rng, tz="US/Eastern")
     add("Billing", "clean_tzB", F.billing_baseline(m2, t2), ("Baseline", "Billing"), "US/Eastern")
     mn = m - m.mean() * 1.02
@@ -96,6 +108,14 @@ def build_data(seed):
     h = F.hourly_frame(rng, tz="US/Pacific")
     add("Hourly", "clean", F.hourly_baseline(h), ("Baseline", "Hourly"), "US/Pacific")
     add("Hourly", "short", F.hourly_baseline(h.iloc[: 200 * 24]), ("Baseline", "Hourly"), "US/Pacific")
+    hgap = h.copy()
+    gap_days = rng.sample(range(365), 60)
+    for gd in gap_days:
+        hgap.iloc[gd * 24: gd * 24 + 24, hgap.columns.get_loc("observed")] = np.nan
+    add("Hourly", "gaps", F.hourly_baseline(hgap), ("Baseline", "Hourly"), "US/Pacific")
+    htg = h.iloc[: 250 * 24].copy()
+    htg.iloc[40 * 24: 75 * 24, htg.columns.get_loc("temperature")] = np.nan
+    add("Hourly", "short_tgaps", F.hourly_baseline(htg), ("Baseline", "Hourly"), "US/Pacific")
     hg = F.hourly_frame(rng, tz="US/Pacific", ghi=True)
     add("Hourly", "clean_ghi", F.hourly_baseline(hg), ("Baseline", "Hourly"), "US/Pacific", ghi=True)
     he = F.hourly_frame(rng, tz="US/Eastern")
@@ -199,7 +219,10 @@ def run_history(args):
             data_changed = False
             if getattr(obj, "is_fitted", False):
                 try:
-                    obj = type(obj).from_json(obj.to_json())
+                    if len(op) > 1 and op[1] == "dict":
+                        obj = type(obj).from_dict(json.loads(json.dumps(obj.to_dict())))
+                    else:
+                        obj = type(obj).from_json(obj.to_json())
                 except Exception as e:  # noqa
                     out = "ReloadFailed:" + exn_name(e)
         fitted = bool(getattr(obj, "is_fitted", False))
@@ -237,7 +260,7 @@ def gen_history(rng, fam, k):
         return "lowthr", ops
     if k == 3 and fam != "Hourly":
         ops = [("fit", "missmonth", False), ("fit", "missmonth", True), ("predict", "rep", False), ("reload",),
-               ("predict", "rep", False), ("predict", "rep", True), ("reload",), ("predict", "rep", False)]
+               ("predict", "rep", False), ("predict", "rep", True), ("reload", "dict"), ("predict", "rep", False)]
         return "default", ops
     if k == 4 and fam == "Hourly":
         ops = [("fit", "exporter_poor", False), ("predict", "rep", False), ("reload",), ("predict", "rep", False),
@@ -245,7 +268,7 @@ def gen_history(rng, fam, k):
         return "adaptive", ops
     if k == 3 and fam == "Hourly":
         ops = [("fit", "exporter_poor", False), ("predict", "rep", False), ("reload",), ("predict", "rep", False),
-               ("predict", "rep", True)]
+               ("predict", "rep", True), ("reload", "dict"), ("predict", "rep", False)]
         return "default", ops
     while len(ops) < length:
         x = rng.random()
@@ -256,7 +279,7 @@ def gen_history(rng, fam, k):
         elif x < 0.85:
             ops.append(("predict", rng.choice(preds + ["rep", "rep"]), rng.random() < 0.4))
         else:
-            ops.append(("reload",))
+            ops.append(("reload",) if rng.random() < 0.6 else ("reload", "dict"))
     return profile, ops
 
 
